@@ -23,6 +23,8 @@ def one(src):
         letter = {"a": "e", "b": "f"}[letter]
     if "/out4/" in src:          # fourth wave (the five properties not in the third)
         letter = {"a": "e", "b": "f"}[letter]
+    if "/out7/" in src:          # seventh wave (all twenty)
+        letter = {"a": "i", "b": "j"}[letter]
     if "/out6/" in src:          # sixth wave (the ten properties not in the fifth)
         letter = {"a": "g", "b": "h"}[letter]
     if "/out5/" in src:          # fifth wave
@@ -75,7 +77,7 @@ def one(src):
 
 
 if __name__ == "__main__":
-    srcs = sorted(glob.glob("/tmp/seed/out/C*/[ab]")) + sorted(glob.glob("/tmp/seed/out2/C*/[ab]")) + sorted(glob.glob("/tmp/seed/out3/C*/[ab]")) + sorted(glob.glob("/tmp/seed/out4/C*/[ab]")) + sorted(glob.glob("/tmp/seed/out5/C*/[ab]")) + sorted(glob.glob("/tmp/seed/out6/C*/[ab]"))
+    srcs = sorted(glob.glob("/tmp/seed/out/C*/[ab]")) + sorted(glob.glob("/tmp/seed/out2/C*/[ab]")) + sorted(glob.glob("/tmp/seed/out3/C*/[ab]")) + sorted(glob.glob("/tmp/seed/out4/C*/[ab]")) + sorted(glob.glob("/tmp/seed/out5/C*/[ab]")) + sorted(glob.glob("/tmp/seed/out6/C*/[ab]")) + sorted(glob.glob("/tmp/seed/out7/C*/[ab]"))
     if len(sys.argv) > 1:
         srcs = [s for s in srcs if any(a in s for a in sys.argv[1:])]
     with ThreadPoolExecutor(max_workers=3) as ex:
